@@ -19,103 +19,102 @@
 #endif
 
 /* ---- model list ---------------------------------------------------------------------------------------------------- */
-struct sbl_list {
-	struct KSI_TLV_list_st fn;        /* what the code sees (first member: the code's list pointer is &fn) */
-	size_t n; KSI_TLV *id[SBV_MAX];   /* the array view */
-	_Bool hasArray;                   /* list.c: a list that never held an element has no slot array */
-	_Bool growFails;                  /* the next growth of the slot array fails (OUT_OF_MEMORY) */
-	size_t cap;                       /* slots allocated (growth when n + 1 > cap) */
-	_Bool live;
-};
 #define SBL_LISTS 2                   /* [0] the child list of the base TLV, [1] a list made on the way by KSI_List_new */
-static struct sbl_list g_sbl[SBL_LISTS];
+static struct KSI_TLV_list_st g_sbl_fn[SBL_LISTS];     /* what the code sees: call-backs */
+/* state (kept apart from the call-back structs and addressed by index: writes through a struct pointer obtained from the
+ * opaque KSI_List pointer make CBMC rebuild the whole object byte-wise) */
+static size_t g_sbl_n[SBL_LISTS]; static KSI_TLV *g_sbl_id[SBL_LISTS][SBV_MAX];    /* the array view */
+static _Bool g_sbl_hasArray[SBL_LISTS];   /* list.c: a list that never held an element has no slot array */
+static _Bool g_sbl_growFails[SBL_LISTS];  /* the next growth of the slot array fails (OUT_OF_MEMORY) */
+static size_t g_sbl_cap[SBL_LISTS];       /* slots allocated (growth when n + 1 > cap) */
+static _Bool g_sbl_live[SBL_LISTS];
 static unsigned g_sbl_new_calls, g_sbl_free_calls, g_sbl_elem_free_calls;
 
-static struct sbl_list *sbl_of(KSI_LIST(KSI_TLV) *l) {
-	__CPROVER_assert(l == &g_sbl[0].fn || l == &g_sbl[1].fn, "MACHINERY: list call-back on a model list");
-	return l == &g_sbl[0].fn ? &g_sbl[0] : &g_sbl[1];
+static unsigned sbl_of(const void *l) {
+	__CPROVER_assert(l == (const void *)&g_sbl_fn[0] || l == (const void *)&g_sbl_fn[1], "MACHINERY: list call-back on a model list");
+	return l == (const void *)&g_sbl_fn[0] ? 0 : 1;
 }
-static size_t sbl_length(KSI_LIST(KSI_TLV) *l) { return l == NULL ? 0 : sbl_of(l)->n; }                  /* list.c:289 */
+static size_t sbl_length(KSI_LIST(KSI_TLV) *l) { return l == NULL ? 0 : g_sbl_n[sbl_of(l)]; }           /* list.c:289 */
 static int sbl_elementAt(KSI_LIST(KSI_TLV) *l, size_t pos, KSI_TLV **o) {                                /* list.c:260 */
-	struct sbl_list *m; size_t i;
+	unsigned m; size_t i;
 	if (l == NULL || o == NULL) return KSI_INVALID_ARGUMENT;
 	m = sbl_of(l);
-	if (!m->hasArray) return KSI_INVALID_STATE;
-	if (pos >= m->n) return KSI_BUFFER_OVERFLOW;
-	for (i = 0; i < SBV_MAX; i++) if (i == pos) *o = m->id[i];
+	if (!g_sbl_hasArray[m]) return KSI_INVALID_STATE;
+	if (pos >= g_sbl_n[m]) return KSI_BUFFER_OVERFLOW;
+	for (i = 0; i < SBV_MAX; i++) if (i == pos) *o = g_sbl_id[m][i];
 	return KSI_OK;
 }
 static int sbl_remove(KSI_LIST(KSI_TLV) *l, size_t pos, KSI_TLV **o) {                                   /* list.c:293 */
-	struct sbl_list *m; size_t i; KSI_TLV *e = NULL;
+	unsigned m; size_t i; KSI_TLV *e = NULL;
 	if (l == NULL) return KSI_INVALID_ARGUMENT;
 	m = sbl_of(l);
-	if (!m->hasArray) return KSI_INVALID_STATE;
-	if (pos >= m->n) return KSI_INVALID_ARGUMENT;
-	for (i = 0; i < SBV_MAX; i++) if (i == pos) e = m->id[i];
-	if (o != NULL) *o = e; else if (m->fn.obj_free != NULL) { g_sbl_elem_free_calls++; m->fn.obj_free(e); }
-	for (i = 0; i + 1 < SBV_MAX; i++) if (i >= pos && i + 1 < m->n) m->id[i] = m->id[i + 1];
-	m->n--;
-	for (i = 0; i < SBV_MAX; i++) if (i == m->n) m->id[i] = NULL;
+	if (!g_sbl_hasArray[m]) return KSI_INVALID_STATE;
+	if (pos >= g_sbl_n[m]) return KSI_INVALID_ARGUMENT;
+	for (i = 0; i < SBV_MAX; i++) if (i == pos) e = g_sbl_id[m][i];
+	if (o != NULL) *o = e; else if (g_sbl_fn[m].obj_free != NULL) { g_sbl_elem_free_calls++; g_sbl_fn[m].obj_free(e); }
+	for (i = 0; i + 1 < SBV_MAX; i++) if (i >= pos && i + 1 < g_sbl_n[m]) g_sbl_id[m][i] = g_sbl_id[m][i + 1];
+	g_sbl_n[m]--;
+	for (i = 0; i < SBV_MAX; i++) if (i == g_sbl_n[m]) g_sbl_id[m][i] = NULL;
 	return KSI_OK;
 }
 static int sbl_append(KSI_LIST(KSI_TLV) *l, KSI_TLV *e) {                                                /* list.c:59 */
-	struct sbl_list *m; size_t i;
+	unsigned m; size_t i;
 	if (l == NULL) return KSI_INVALID_ARGUMENT;
 	m = sbl_of(l);
-	if (m->n + 1 > m->cap) {
-		if (m->growFails) return KSI_OUT_OF_MEMORY;
-		m->cap += 10; m->hasArray = 1;
+	if (g_sbl_n[m] + 1 > g_sbl_cap[m]) {
+		if (g_sbl_growFails[m]) return KSI_OUT_OF_MEMORY;
+		g_sbl_cap[m] += 10; g_sbl_hasArray[m] = 1;
 	}
-	__CPROVER_assert(m->n < SBV_MAX, "MACHINERY: capacity of the model list");
-	for (i = 0; i < SBV_MAX; i++) if (i == m->n) m->id[i] = e;
-	m->n++;
+	__CPROVER_assert(g_sbl_n[m] < SBV_MAX, "MACHINERY: capacity of the model list");
+	for (i = 0; i < SBV_MAX; i++) if (i == g_sbl_n[m]) g_sbl_id[m][i] = e;
+	g_sbl_n[m]++;
 	return KSI_OK;
 }
 static int sbl_find(KSI_LIST(KSI_TLV) *l, KSI_TLV *e, int *found, size_t *pos) {                         /* list.c:113 */
-	struct sbl_list *m; size_t i, k;
+	unsigned m; size_t i, k;
 	if (l == NULL || e == NULL || found == NULL || pos == NULL) return KSI_INVALID_ARGUMENT;
-	m = sbl_of(l); k = m->n;
-	for (i = 0; i < SBV_MAX; i++) if (i < m->n && k == m->n && m->id[i] == e) k = i;
-	if (k < m->n) *pos = k;
-	*found = k < m->n ? 1 : 0;
+	m = sbl_of(l); k = g_sbl_n[m];
+	for (i = 0; i < SBV_MAX; i++) if (i < g_sbl_n[m] && k == g_sbl_n[m] && g_sbl_id[m][i] == e) k = i;
+	if (k < g_sbl_n[m]) *pos = k;
+	*found = k < g_sbl_n[m] ? 1 : 0;
 	return KSI_OK;
 }
 static int sbl_replaceAt(KSI_LIST(KSI_TLV) *l, size_t pos, KSI_TLV *e) {                                 /* list.c:188 */
-	struct sbl_list *m; size_t i; KSI_TLV *old = NULL;
+	unsigned m; size_t i; KSI_TLV *old = NULL;
 	if (l == NULL) return KSI_INVALID_ARGUMENT;
 	m = sbl_of(l);
-	if (!m->hasArray) return KSI_INVALID_STATE;
-	if (pos >= m->n) return KSI_BUFFER_OVERFLOW;
-	for (i = 0; i < SBV_MAX; i++) if (i == pos) old = m->id[i];
-	if (m->fn.obj_free != NULL) { g_sbl_elem_free_calls++; m->fn.obj_free(old); }
-	for (i = 0; i < SBV_MAX; i++) if (i == pos) m->id[i] = e;
+	if (!g_sbl_hasArray[m]) return KSI_INVALID_STATE;
+	if (pos >= g_sbl_n[m]) return KSI_BUFFER_OVERFLOW;
+	for (i = 0; i < SBV_MAX; i++) if (i == pos) old = g_sbl_id[m][i];
+	if (g_sbl_fn[m].obj_free != NULL) { g_sbl_elem_free_calls++; g_sbl_fn[m].obj_free(old); }
+	for (i = 0; i < SBV_MAX; i++) if (i == pos) g_sbl_id[m][i] = e;
 	return KSI_OK;
 }
-static void sbl_init(struct sbl_list *m, void (*obj_free)(KSI_TLV *)) {
+static void sbl_init(unsigned m, void (*obj_free)(KSI_TLV *)) {
 	size_t i;
-	m->fn.append = sbl_append; m->fn.removeElement = sbl_remove; m->fn.indexOf = NULL; m->fn.insertAt = NULL;
-	m->fn.replaceAt = sbl_replaceAt; m->fn.elementAt = sbl_elementAt; m->fn.length = sbl_length; m->fn.obj_free = obj_free;
-	m->fn.sort = NULL; m->fn.foldl = NULL; m->fn.pImpl = NULL; m->fn.find = sbl_find;
-	m->n = 0; m->hasArray = 0; m->growFails = 0; m->cap = 0; m->live = 1;
-	for (i = 0; i < SBV_MAX; i++) m->id[i] = NULL;
+	g_sbl_fn[m].append = sbl_append; g_sbl_fn[m].removeElement = sbl_remove; g_sbl_fn[m].indexOf = NULL; g_sbl_fn[m].insertAt = NULL;
+	g_sbl_fn[m].replaceAt = sbl_replaceAt; g_sbl_fn[m].elementAt = sbl_elementAt; g_sbl_fn[m].length = sbl_length; g_sbl_fn[m].obj_free = obj_free;
+	g_sbl_fn[m].sort = NULL; g_sbl_fn[m].foldl = NULL; g_sbl_fn[m].pImpl = NULL; g_sbl_fn[m].find = sbl_find;
+	g_sbl_n[m] = 0; g_sbl_hasArray[m] = 0; g_sbl_growFails[m] = 0; g_sbl_cap[m] = 0; g_sbl_live[m] = 1;
+	for (i = 0; i < SBV_MAX; i++) g_sbl_id[m][i] = NULL;
 }
 /* list.c:352 KSI_List_new (reached through KSI_TLVList_new of tlv.c): OUT_OF_MEMORY or a fresh empty list */
 int KSI_List_new(void (*obj_free)(void *), KSI_List **list) {
 	g_sbl_new_calls++;
 	if (nondet_bool()) return KSI_OUT_OF_MEMORY;
-	__CPROVER_assert(!g_sbl[1].live, "MACHINERY: one list is made on the way at most");
-	sbl_init(&g_sbl[1], (void (*)(KSI_TLV *))obj_free);
-	g_sbl[1].growFails = nondet_bool();
-	*list = (KSI_List *)&g_sbl[1].fn;
+	__CPROVER_assert(!g_sbl_live[1], "MACHINERY: one list is made on the way at most");
+	sbl_init(1, (void (*)(KSI_TLV *))obj_free);
+	g_sbl_growFails[1] = nondet_bool();
+	*list = (KSI_List *)&g_sbl_fn[1];
 	return KSI_OK;
 }
 /* list.c:335 KSI_List_free: only a list that is not attached to a TLV and holds nothing is ever released here */
 void KSI_List_free(KSI_List *list) {
 	if (list != NULL) {
-		struct sbl_list *m = sbl_of((KSI_LIST(KSI_TLV) *)list);
+		unsigned m = sbl_of(list);
 		g_sbl_free_calls++;
-		__CPROVER_assert(m->live && m->n == 0, "only a live empty list is released by the surgery");
-		m->live = 0;
+		__CPROVER_assert(g_sbl_live[m] && g_sbl_n[m] == 0, "only a live empty list is released by the surgery");
+		g_sbl_live[m] = 0;
 	}
 }
 
@@ -128,9 +127,12 @@ struct sbv_ghost {
 	unsigned foreign_free;
 } g_sbv;
 
-/* opaque typed records: only identity matters */
+/* opaque typed records: only identity matters (SBV_WITH_SIGNATURE_C: signature.c brings the real record types and the
+ * real KSI_CalendarAuthRec_free along; the harness then includes the impl headers itself) */
+#ifndef SBV_WITH_SIGNATURE_C
 struct KSI_CalendarHashChain_st { int dummy; };
 struct KSI_PublicationRecord_st { int dummy; };
+#endif
 
 int KSI_TlvTemplate_construct(KSI_CTX *ctx, KSI_TLV *tlv, const void *payload, const KSI_TlvTemplate *tmpl) {
 	g_sbv.construct_calls++; g_sbv.construct_tlv = tlv; g_sbv.construct_payload = payload; g_sbv.construct_tmpl = tmpl;
@@ -141,7 +143,12 @@ int KSI_TlvTemplate_construct(KSI_CTX *ctx, KSI_TLV *tlv, const void *payload, c
 int KSI_TlvTemplate_extract(KSI_CTX *ctx, void *payload, KSI_TLV *tlv, const KSI_TlvTemplate *tmpl) { return nondet_int(); }
 void KSI_CalendarHashChain_free(KSI_CalendarHashChain *t) { if (t != NULL) { g_sbv.cal_free_calls++; g_sbv.cal_freed = t; } }
 KSI_CalendarHashChain *KSI_CalendarHashChain_ref(KSI_CalendarHashChain *t) { if (t != NULL) g_sbv.cal_ref_calls++; return t; }
+#ifndef SBV_WITH_SIGNATURE_C
 void KSI_CalendarAuthRec_free(KSI_CalendarAuthRec *t) { if (t != NULL) { g_sbv.calauth_free_calls++; g_sbv.calauth_freed = t; } }
+#else
+void KSI_PublicationData_free(KSI_PublicationData *t) { if (t != NULL) g_sbv.foreign_free++; }
+void KSI_PKISignedData_free(KSI_PKISignedData *t) { if (t != NULL) g_sbv.foreign_free++; }
+#endif
 void KSI_PublicationRecord_free(KSI_PublicationRecord *t) { if (t != NULL) { g_sbv.pub_free_calls++; g_sbv.pub_freed = t; } }
 void KSI_DataHash_free(KSI_DataHash *h) { if (h != NULL) g_sbv.foreign_free++; }
 int KSI_FTLV_memRead(const unsigned char *m, size_t l, KSI_FTLV *t) { return KSI_INVALID_FORMAT; }
@@ -162,42 +169,44 @@ static void sbh_init_tlv(KSI_TLV *t, unsigned tag) {
 }
 /* the view of the child list (identities from the model list, tags from the real TLV objects) */
 static void sbh_snapshot(KSI_TLV *base, sb_view *v) {
-	size_t i; struct sbl_list *m;
+	size_t i; unsigned m;
 	sbv_clear(v);
 	if (base == NULL || base->nested == NULL) return;
 	m = sbl_of(base->nested);
-	for (i = 0; i < SBV_MAX; i++) if (i < m->n) { v->id[i] = m->id[i]; v->tag[i] = m->id[i]->tag; }      /* (concrete indices) */
-	v->n = m->n;
+	for (i = 0; i < SBV_MAX; i++) if (i < g_sbl_n[m]) { v->id[i] = g_sbl_id[m][i]; v->tag[i] = g_sbl_id[m][i]->tag; }      /* (concrete indices) */
+	v->n = g_sbl_n[m];
 }
+/* The harness runs ONE case (shape, n) chosen nondeterministically; the cases are enumerated with CONCRETE shape and n so
+ * that symex keeps list positions and object identities concrete inside a case (a symbolic n made the same job 10x slower). */
+#define SBH_CASES (SB_MAX_CHILDREN + 3)      /* 0: no base TLV; 1: unexpanded empty base TLV; 2 + n: expanded, n children */
+#define SBH_CASE_SHAPE(k) ((k) == 0 ? 0 : (k) == 1 ? 2 : 1)
+#define SBH_CASE_N(k) ((k) < 2 ? 0 : (size_t)(k) - 2)
 /* base TLV 0x800 with n <= SB_MAX_CHILDREN children (heap objects) of arbitrary tags.  The typed fields mirror the children
  * (calendarChain != NULL <=> a 0x802 child exists, ...): established by KSI_TlvTemplate_extract (C10.engine,
  * C10.tables_signature) - precondition derived from the call sites (the surgery is only ever applied to a parsed clone). */
-static void sbh_make_signature(sb_view *old) {
-	size_t n = nondet_size(), i;
+static void sbh_make_signature(sb_view *old, int shape, size_t n) {
+	size_t i;
 	KSI_TLV *base = NULL;
 	memset(&g_sbv, 0, sizeof(g_sbv)); g_sbl_new_calls = 0; g_sbl_free_calls = 0; g_sbl_elem_free_calls = 0;
-	g_sbl[0].live = 0; g_sbl[1].live = 0;
+	g_sbl_live[0] = 0; g_sbl_live[1] = 0;
 	s_sig.ctx = S_CTX; s_sig.ref = 1;
-	s_shape = nondet_int();
-	__CPROVER_assume(s_shape >= 0 && s_shape <= 2);
-	__CPROVER_assume(n <= SB_MAX_CHILDREN);               /* the stated bound of the job */
+	s_shape = shape;
 	for (i = 0; i < SB_MAX_CHILDREN; i++) s_kid[i] = NULL;
 	if (s_shape != 0) {
 		base = malloc(sizeof(struct KSI_TLV_st)); __CPROVER_assume(base != NULL);
 		sbh_init_tlv(base, 0x800);
 		if (s_shape == 1) {
-			struct sbl_list *m = &g_sbl[0];
-			sbl_init(m, KSI_TLV_free);
-			m->growFails = nondet_bool();
-			if (nondet_bool()) { m->cap = 10; m->hasArray = 1; } else { m->cap = n; m->hasArray = n > 0; }
+			sbl_init(0, KSI_TLV_free);
+			g_sbl_growFails[0] = nondet_bool();
+			if (nondet_bool()) { g_sbl_cap[0] = 10; g_sbl_hasArray[0] = 1; } else { g_sbl_cap[0] = n; g_sbl_hasArray[0] = n > 0; }
 			for (i = 0; i < SB_MAX_CHILDREN; i++) if (i < n) {
 				KSI_TLV *k = malloc(sizeof(struct KSI_TLV_st)); __CPROVER_assume(k != NULL);
 				sbh_init_tlv(k, nondet_uint());
 				__CPROVER_assume(k->tag <= 0x1fff);
-				s_kid[i] = k; m->id[i] = k;
+				s_kid[i] = k; g_sbl_id[0][i] = k;
 			}
-			m->n = n;
-			base->nested = &m->fn;
+			g_sbl_n[0] = n;
+			base->nested = &g_sbl_fn[0];
 		}
 	}
 	s_base = base; s_sig.baseTlv = base;
